@@ -5,6 +5,9 @@ pub mod c05;
 pub mod c06;
 pub mod c07;
 pub mod c07b;
+pub mod c08;
+pub mod c09;
+pub mod txinv;
 pub mod c11;
 pub mod c11b;
 pub mod c12;
@@ -32,6 +35,8 @@ pub fn dispatch(ctx: &Ctx, replay: Option<&str>) -> i32 {
         "C05" => c05,
         "C06" => c06,
         "C07" => c07,
+        "C08" => c08,
+        "C09" => c09,
         "C11" => c11,
         "C12" => c12,
         "C13" => c13,
